@@ -116,6 +116,44 @@ def run_session(z, sess, srcdir, base_idx=0, filters=None):
             data = G.expand(e["data"])
             z.writef(io.BytesIO(data), e["name"])
             added.append({"name": e["name"], "kind": "file", "data": data, "mode": None, "mtime_ns": None})
+        elif how == "writeall-tree":
+            # a small tree added with writeall(): directory, file, sub-directory, file
+            data = G.expand(e["data"])
+            root = os.path.join(srcdir, "t%d" % (base_idx + i))
+            os.makedirs(os.path.join(root, "sub"))
+            with open(os.path.join(root, "a.txt"), "wb") as f:
+                f.write(data)
+            with open(os.path.join(root, "sub", "b.txt"), "wb") as f:
+                f.write(data[::-1])
+            z.writeall(root, e["name"])
+            n = stored_name_for_write(e["name"])
+            added.append({"name": n, "kind": "dir", "data": b"", "mode": None, "mtime_ns": None})
+            added.append({"name": n + "/a.txt", "kind": "file", "data": data, "mode": None, "mtime_ns": None})
+            added.append({"name": n + "/sub", "kind": "dir", "data": b"", "mode": None, "mtime_ns": None})
+            added.append({"name": n + "/sub/b.txt", "kind": "file", "data": data[::-1], "mode": None, "mtime_ns": None})
+        elif how == "fail-writef":
+            # a source whose first read() raises: the call fails, the session goes on, nothing is added
+
+            class _Failing(io.BufferedIOBase):
+                def readable(self):
+                    return True
+
+                def seekable(self):
+                    return True
+
+                def tell(self):
+                    return 0
+
+                def seek(self, off, whence=0):
+                    return 0
+
+                def read(self, n=-1):
+                    raise OSError(5, "injected read failure")
+
+            try:
+                z.writef(_Failing(), e["name"])
+            except OSError:
+                pass
         else:
             p, model = materialise(e, srcdir, base_idx + i)
             z.write(p, e["name"])
